@@ -188,13 +188,15 @@ def build(tier):
              ("outer_padding", coll([b("x", R1), b("y", R1)], 2), coll([b("x", R1), b("y", R1)], 8), "false"),
              ("same_layout", coll([b("x", R8), b("y", R8)], 16), coll([b("x", R8), b("y", R8)], 16), "true"),
              ("different_values", coll([b("x", R8), b("y", R8)], 16), coll([b("y", R8), b("x", R8)], 16), "(x == y)")]
+    if tier == "quick":
+        pools = [x for x in pools if x[0] in ("array_vs_struct", "byte_vs_padded_byte", "outer_padding", "same_layout")]
     pool = ""
     for name, present, new, same in pools:
         pool += POOL.replace("@NAME@", name).replace("@PRESENT@", present).replace("@NEW@", new).replace("@SAME@", same)
         obs.append(vf.Ob("pool_%s" % name, "C01", complete=False, bound="one concrete pair of shapes (%s), symbolic element values" % name, panic_prop="C17",
                          what="Entry::equiv (the pooling test of DataSection::insert_data_value) holds exactly when values AND paddings agree at every level"))
     src = src.replace("@OFFS@", offs).replace("@LAYOUT@", lay).replace("@POOL@", pool)
-    u = vf.KaniUnit("c13_layout", {"src/lib.rs": src}, obs, timeout_s=900, jobs=4, auto_files=[DS, "sway-core/src/lib.rs"])
+    u = vf.KaniUnit("c13_layout", {"src/lib.rs": src}, obs, timeout_s=1200 if tier == "quick" else 4000, jobs=6, auto_files=[DS, "sway-core/src/lib.rs"])
     u.fragments = [vf.frag_record(fr[k]) for k in fr]
     u.rewrites = [{"rule": "R1", "before": "serde derives on Entry/Datum/EntryName/Padding", "after": "plain derives", "times": 5}]
     u.assumptions = ["CompiledBytecode reduced to its bytecode field; DataSection::pointer_id replaced by a unit type (not read by the functions under contract)",
